@@ -172,6 +172,26 @@ def run_case(chk, stream, case):
                 break
             except Exception:
                 pass
+        # modifications that LENGTHEN the blob: bytes appended after the tag, bytes put in front, a block inserted before the tag, the tag doubled
+        import random as _random
+        rr = _random.Random(case["seed"])
+        longer = []
+        for extra in (range(1, 33) if case["all"] else [1, 6, 10, 15, 16, 17]):
+            longer.append(("%d byte(s) appended after the tag" % extra, ct + bytes(rr.randrange(256) for _ in range(extra))))
+            longer.append(("%d zero byte(s) appended after the tag" % extra, ct + bytes(extra)))
+        longer.append(("the tag appended a second time", ct + ct[-10:]))
+        longer.append(("one byte put in front", b"\x00" + ct))
+        longer.append(("a block inserted before the tag", ct[:-10] + bytes(16) + ct[-10:]))
+        longer.append(("the last block doubled", ct[:-10] + ct[-26:-10] + ct[-10:]))
+        for what_, x in longer:
+            chk.hit("tamper:lengthen")
+            try:
+                out = mc.decrypt(x, key, info)
+            except Exception:
+                continue
+            fails.append(oracle("C15:tamper-accepted", "plaintext of %d bytes: ciphertext with %s is accepted (%d bytes returned%s)"
+                                % (n, what_, len(out), ", the original plaintext" if out == p else "")))
+            break
     elif stream == "wrong":
         other = bytes.fromhex(case["other"])
         try:
